@@ -20,6 +20,42 @@ theorem partition_disjoint {α : Type} (xs : List α) (n : Nat) (hn : 0 < n) (hx
     (partition xs n).flatten.Nodup :=
   (partition_exact xs n hn).2.nodup_iff.mpr hx
 
+/-- **Embedded splitter, end to end**: with `n ≥ 1` runners and `k` splits, runner `r` gets group `r` of `n` groups;
+every split `i < k` is in the list of exactly one runner, once, and no runner gets anything else. -/
+theorem embedded_every_split_one_runner (k n : Nat) (hn : 0 < n) :
+    (embeddedAssign k n).length = n ∧
+    (∀ i, i < k → ∃ r g, r < n ∧ (embeddedAssign k n)[r]? = some g ∧ i ∈ g ∧ g.Nodup ∧
+      ∀ (r' : Nat) (g' : List Nat), (embeddedAssign k n)[r']? = some g' → i ∈ g' → r' = r) ∧
+    (∀ (r : Nat) (g : List Nat), (embeddedAssign k n)[r]? = some g → ∀ j ∈ g, j < k) := by
+  obtain ⟨hlen, hperm⟩ := partition_exact (List.range k) n hn
+  have hnd : (embeddedAssign k n).flatten.Nodup := partition_disjoint (List.range k) n hn List.nodup_range
+  refine ⟨hlen, ?_, ?_⟩
+  · intro i hi
+    have hm : i ∈ (embeddedAssign k n).flatten := hperm.mem_iff.mpr (List.mem_range.mpr hi)
+    obtain ⟨g, hg, hig⟩ := List.mem_flatten.mp hm
+    obtain ⟨r, hr⟩ := List.mem_iff_getElem?.mp hg
+    refine ⟨r, g, ?_, hr, hig, (List.sublist_flatten_of_mem hg).nodup hnd, ?_⟩
+    · have := lt_length_of_getElem? _ _ _ hr
+      rw [← hlen]; exact this
+    · intro r' g' hr' hig'
+      exact flatten_nodup_unique _ hnd i r' r g' g hr' hr hig' hig
+  · intro r g hr j hj
+    have : j ∈ (embeddedAssign k n).flatten :=
+      List.mem_flatten.mpr ⟨g, List.mem_iff_getElem?.mpr ⟨r, hr⟩, hj⟩
+    exact List.mem_range.mp (hperm.mem_iff.mp this)
+
+/-- **httpapi splitter**: the single split resumes from the last non-empty split state of the checkpoint (and from
+the start when there is none); with the one runner's one state `p` this is `p` (`job_resumes_restored_cut`). -/
+theorem httpCursor_spec {α : Type} (pre post : List (List α)) (d : List α) (hd : d ≠ [])
+    (hpost : ∀ e ∈ post, e = []) :
+    httpCursor (pre ++ [d] ++ post) = d ∧ httpCursor post = [] := by
+  refine ⟨?_, ?_⟩
+  · rw [httpCursor_append_empties _ _ hpost]; exact httpCursor_append_nonempty pre d hd
+  · have := httpCursor_append_empties ([] : List (List α)) post hpost
+    simpa [httpCursor] using this
+
+example : httpCursor [[1], [], [2, 3], []] = [2, 3] := by decide
+
 example : partition [10, 11, 12, 13, 14] 2 = [[10, 12, 14], [11, 13]] := by decide
 example : embeddedAssign 5 3 = [[0, 3], [1, 4], [2]] := by decide
 
@@ -145,6 +181,69 @@ theorem restore_resumes (keep : Bool) (shards runners : Nat) (as : List Act) (c 
   have := step_log keep s .start
   simpa [step] using this
 
+/-- after every step that ends with an assignment round nothing assignable is left: every tracked shard is assigned
+or has a tracked parent -/
+theorem assignment_round_leaves_nothing_available (keep : Bool) (s : Sp) (a : Act)
+    (ha : a = .start ∨ a = .tick ∨ ∃ ids, a = .finish ids) : available (step keep s a).1.tr = [] := by
+  rcases ha with rfl | rfl | ⟨ids, rfl⟩ <;> exact available_after_assign _
+
+/-- **No shard is left behind** (the code as it is; partial, D16c open). After a (re)start or a discovery tick —
+both end with an assignment round — every shard of the stream is finished, has been handed out, or waits for a parent
+the tracker still tracks. Full statement: without the hypothesis. Excluded condition as in
+`children_withheld_partial`: the state after the step is untainted. -/
+theorem none_left_behind_partial (keep : Bool) (shards runners : Nat) (as : List Act) (a : Act)
+    (ha : a = .start ∨ a = .tick) :
+    let s' := (step keep (run keep (initSp shards runners) as) a).1
+    s'.tainted = false →
+    ∀ (i : Nat) (sh : Shard), s'.stream[i]? = some sh →
+      i ∈ s'.done ∨ i ∈ s'.log ∨ ∃ p ∈ sh.parents, knownId s'.tr.known p = true := by
+  intro s' ht
+  have hI : Inv (run keep (initSp shards runners) as) := Inv.run keep as _ (Inv.init shards runners)
+  rcases ha with rfl | rfl
+  · have ht' : (load keep (run keep (initSp shards runners) as)).tainted = false := by
+      have := (assignAvail_tainted (discover (load keep (run keep (initSp shards runners) as)))).1
+      rw [← ht]; exact this.symm
+    exact round_complete _ (Inv.load keep _ hI) ht'
+  · have ht' : (run keep (initSp shards runners) as).tainted = false := by
+      have := (assignAvail_tainted (discover (run keep (initSp shards runners) as))).1
+      rw [← ht]; exact this.symm
+    exact round_complete _ hI ht'
+
+/-- **No shard is left behind** (ideal splitter): unconditional. -/
+theorem none_left_behind (shards runners : Nat) (as : List Act) (a : Act) (ha : a = .start ∨ a = .tick) :
+    let s' := (step true (run true (initSp shards runners) as) a).1
+    ∀ (i : Nat) (sh : Shard), s'.stream[i]? = some sh →
+      i ∈ s'.done ∨ i ∈ s'.log ∨ ∃ p ∈ sh.parents, knownId s'.tr.known p = true := by
+  intro s'
+  have hc : Clean (run true (initSp shards runners) as) := Clean.run as _ ⟨rfl, fun c hc => by simp [initSp] at hc⟩
+  exact none_left_behind_partial true shards runners as a ha (Clean.step _ hc a).t
+
+/-- **Every assignable shard is assigned** (partial for the code as it is, D16c open; unconditional on taint for the
+ideal splitter by `Clean`). As long as finish notifications only name shards that were assigned (`wild = false`: what
+readers do), after a (re)start or a discovery tick every shard of the stream whose parents are all finished, and which
+is not finished itself, has been handed out. -/
+theorem assignable_is_assigned_partial (keep : Bool) (shards runners : Nat) (as : List Act) (a : Act)
+    (ha : a = .start ∨ a = .tick) :
+    let s' := (step keep (run keep (initSp shards runners) as) a).1
+    s'.tainted = false → s'.wild = false →
+    ∀ (i : Nat) (sh : Shard), s'.stream[i]? = some sh → (∀ p ∈ sh.parents, p ∈ s'.done) → i ∉ s'.done → i ∈ s'.log := by
+  intro s' ht hw i sh hi hpar hnd
+  have hI : Inv (run keep (initSp shards runners) as) := Inv.run keep as _ (Inv.init shards runners)
+  have hT : Tame s' := Tame.step keep _ hI (Tame.run keep as _ (Inv.init shards runners) (Tame.init shards runners)) a
+  rcases none_left_behind_partial keep shards runners as a ha ht i sh hi with h1 | h1 | ⟨p, hp, hk⟩
+  · exact absurd h1 hnd
+  · exact h1
+  · obtain ⟨t, hts, e⟩ := (knownId_iff _ _).mp hk
+    exact absurd (e ▸ hpar p hp) (hT.X hw t hts)
+
+theorem assignable_is_assigned (shards runners : Nat) (as : List Act) (a : Act) (ha : a = .start ∨ a = .tick) :
+    let s' := (step true (run true (initSp shards runners) as) a).1
+    s'.wild = false →
+    ∀ (i : Nat) (sh : Shard), s'.stream[i]? = some sh → (∀ p ∈ sh.parents, p ∈ s'.done) → i ∉ s'.done → i ∈ s'.log := by
+  intro s'
+  have hc : Clean (run true (initSp shards runners) as) := Clean.run as _ ⟨rfl, fun c hc => by simp [initSp] at hc⟩
+  exact assignable_is_assigned_partial true shards runners as a ha (Clean.step _ hc a).t
+
 /-- **Recovery resumes the sources from the cut the operators restore.** For every history of completed checkpoints
 (snapshot write finished at once or still in flight), late publications and (re)deployments — including a publication
 that lands between `assembly.Deploy` and `sourceSplitter.Start` — every (re)start either restores nothing and assigns
@@ -176,5 +275,10 @@ handed out although their parent 2 was never read (and 2,3 are lost) -/
 theorem children_withheld_counterexample :
     let s := run false (initSp 2 2) witness
     s.tainted = true ∧ 6 ∈ s.log ∧ s.stream[6]?.map (·.parents) = some [2] ∧ 2 ∉ s.done := by decide
+
+/-- ... and after shard 0 finishes and a discovery tick its children 2,3 are still not handed out -/
+theorem assignable_is_assigned_counterexample :
+    let s := run false (initSp 2 2) (witness ++ [.finish [0], .tick])
+    s.wild = false ∧ s.stream[2]?.map (·.parents) = some [0] ∧ 0 ∈ s.done ∧ 2 ∉ s.done ∧ 2 ∉ s.log := by decide
 
 end Rxn.C16
